@@ -330,7 +330,109 @@ def rule_hand(ctx, f):
             ctx.check(used, "C15-OTHER", name + "#" + keeps_rest,
                       "the reader stores the residual dictionary in `%s` but the writer never reads that field: entries the model does not know "
                       "(and any key it does not re-create) are lost on a read-write cycle" % keeps_rest, wb["span"], detail="`%s` written back" % keeps_rest)
+        # RESID: keys taken out of the dictionary before it is stored as the residual must be put back by the writer
+        rcfg2 = CFG(rb)
+        flr2 = Flow(rb)
+        removes = []
+        for bi, t in F.calls(rb):
+            if F.callee_name(t) == DICT + "remove":
+                k = const_of(flr2, t, 1)
+                if k:
+                    removes.append((bi, k))
+        for i, j, s in F.stmts(rb):
+            if not (s[0] == "assign" and s[2][0] == "aggregate" and s[2][1].get("adt") == adt):
+                continue
+            has_dict = any(F.op_local(op) is not None and rb["locals"][F.op_local(op)]["s"] == "primitive::Dictionary" for op in s[2][2])
+            if not has_dict:
+                continue
+            variant = s[2][1].get("variant")
+            lost = sorted({k for bi, k in removes if i == bi or i in rcfg2.reachable_from(bi)})
+            if not lost:
+                continue
+            # keys the writer inserts: in the arm of this variant if the writer switches on it, else anywhere
+            wins = writer_keys(f, wb)
+            region_keys = None
+            from tables import enum_switches, arm_regions
+            sws = enum_switches(wb, adt, f)
+            if sws and variant is not None:
+                vidx = [vi for vi, v in enumerate(f.adts[adt]["variants"]) if v["name"] == variant]
+                wcfg = CFG(wb)
+                for (sb, pl, arms, other) in sws:
+                    ents = {vi2: arms.get(vi2, other) for vi2 in range(len(f.adts[adt]["variants"]))}
+                    regs = arm_regions(wcfg, ents)
+                    if vidx and vidx[0] in regs:
+                        flw2 = Flow(wb)
+                        region_keys = {const_of(flw2, t, 1) for r in regs[vidx[0]] for t in [wb["blocks"][r]["term"]] if t["k"] == "call" and F.callee_name(t).startswith(DICT + "insert")}
+            have = region_keys if region_keys is not None else set(wins)
+            missing = [k for k in lost if k not in have]
+            ctx.check(not missing, "C15-OTHER", "%s#residual-%s" % (name, variant or "struct"),
+                      "the reader removes %s from the dictionary before storing it as the residual of %s, and the writer does not insert %s again: "
+                      "a value read and written back loses these entries" % (lost, variant or adt.split("::")[-1], missing), rb["span"],
+                      detail="removed %s, all re-inserted" % lost)
     ctx.floor("C15-KEYS-H", n, 4, "hand-written dictionary reader/writer pairs")
+
+
+def rule_variants(ctx, f):
+    """hand-written enum writers: every variant the reader can produce has a writer arm that does not end in the
+    crate's `unimplemented!()` error"""
+    ctx.rule("C15-VARIANTS", "hand-written enum reader/writer pairs: every variant the reader constructs has a writer arm that builds a value "
+             "(it does not end in the crate's unimplemented!() error)")
+    from tables import enum_switches, arm_regions, transitive_callees
+    readers, writers = {}, {}
+    for b in f.bodies.values():
+        im = b.get("impl") or {}
+        if b["kind"] == "Closure" or b.get("mac"):
+            continue
+        if im.get("trait") == "object::Object" and b["id"].endswith("::from_primitive"):
+            readers[im.get("self_adt")] = b
+        if im.get("trait") == "object::ObjectWrite" and b["id"].endswith("::to_primitive"):
+            writers[im.get("self_adt")] = b
+    n = 0
+    for adt in sorted(x for x in (set(readers) & set(writers)) if x):
+        if adt not in f.adts or len(f.adts[adt]["variants"]) < 2:
+            continue
+        rb, wb = readers[adt], writers[adt]
+        sws = enum_switches(wb, adt, f)
+        if not sws:
+            continue
+        # variants the reader (and the helpers it calls in the same impl / module) constructs
+        built = set()
+        seen = set()
+        st = [rb]
+        while st:
+            b = st.pop()
+            if b["id"] in seen:
+                continue
+            seen.add(b["id"])
+            for bb in f.with_closures(b["id"]):
+                for i, j, s_ in F.stmts(bb):
+                    if s_[0] == "assign" and s_[2][0] == "aggregate" and s_[2][1].get("adt") == adt:
+                        built.add(s_[2][1].get("variant"))
+                for bi, t in F.calls(bb):
+                    r = t.get("resolved")
+                    if r and t.get("resolved_local") and r in f.bodies and (f.bodies[r].get("impl") or {}).get("self_adt") == adt and len(seen) < 12:
+                        st.append(f.bodies[r])
+        wcfg = CFG(wb)
+        sb, pl, arms, other = sws[0]
+        names = [v["name"] for v in f.adts[adt]["variants"]]
+        ents = {vi: arms.get(vi, other) for vi in range(len(names))}
+        regs = arm_regions(wcfg, ents)
+        n += 1
+        for vi, vn in enumerate(names):
+            if vn not in built:
+                continue
+            unimpl = False
+            for r in regs.get(vi, ()):
+                t = wb["blocks"][r]["term"]
+                if t["k"] == "call":
+                    for a in t["args"]:
+                        c = F.const_str(a)
+                        if c and c.startswith("Unimplemented @"):
+                            unimpl = True
+            ctx.check(not unimpl, "C15-VARIANTS", "%s#%s" % (adt, vn),
+                      "the reader produces %s::%s but the writer answers it with the unimplemented!() error: such a value cannot be written back" % (adt.split("::")[-1], vn),
+                      wb["span"], detail="%s written" % vn)
+    ctx.floor("C15-VARIANTS", n, 2, "hand-written enum reader/writer pairs with a variant switch in the writer")
 
 
 def rule_absent(ctx, f):
@@ -392,6 +494,7 @@ def run(ctx):
     rule_keys(ctx, f)
     rule_enums(ctx, f)
     rule_hand(ctx, f)
+    rule_variants(ctx, f)
     rule_absent(ctx, f)
     return ctx.finish(
         "Static analysis of the macro-EXPANDED reader and writer impls in MIR: dictionary keys are extracted by tracing string constants into "
